@@ -127,6 +127,9 @@ def string_variants(cs, bo, tier):
         # only AFTER this field (evaluating it would fail)
         lkl = Lookup((((Cmp("SEL", "==", "0"),), 16.0 + extra), ((Cmp("SENT", "==", "1"),), 32.0 + extra)))
         out.append((f"str:{dname}:lookup-late-error", StrEnc(lkl, cs, bo, term, lead), ("lookup", (16 + extra, 0, 0, 0))))
+        # inside ONE entry: a comparison that is false guards a later one that cannot be evaluated (the entry simply does not match)
+        lkg = Lookup((((Cmp("SEL", "==", "3"), Cmp("SENT", "==", "1")), 32.0 + extra), ((Cmp("SEL", "<=", "2"),), 16.0 + extra)))
+        out.append((f"str:{dname}:lookup-guarded", StrEnc(lkg, cs, bo, term, lead), ("lookup", (16 + extra, 16 + extra, 16 + extra, 0))))
         for adj in ADJUSTMENTS:
             for ref, use_cal in (("LEN", True), ("LEN", False), ("LENC", True), ("LENC", False)):
                 if tier == "quick" and ref == "LENC" and adj in ((8, 8), (1, -8)):
@@ -150,6 +153,8 @@ def binary_variants(tier):
     out.append(("bin:lookup-overlap", BinEnc(lko), ("lookup", (20, 8, 8, 32))))
     lkl = Lookup((((Cmp("SEL", "==", "0"),), 12.0), ((Cmp("SENT", "==", "1"),), 32.0)))
     out.append(("bin:lookup-late-error", BinEnc(lkl), ("lookup", (12, 0, 0, 0))))
+    lkg = Lookup((((Cmp("SEL", "==", "3"), Cmp("SENT", "==", "1")), 32.0), ((Cmp("SEL", "<=", "2"),), 20.0)))
+    out.append(("bin:lookup-guarded", BinEnc(lkg), ("lookup", (20, 20, 20, 0))))
     for adj in ADJUSTMENTS:
         for ref, use_cal in (("LEN", True), ("LEN", False), ("LENC", True), ("LENC", False)):
             d = Dyn(ref, use_cal, adj[0] if adj else None, adj[1] if adj else None)
